@@ -5,6 +5,7 @@ CONSTANTS
   D1s <- D01
   Svcs <- C05ThoroughSvcs
   D2s <- D01
+  NearOffsets <- NearNone
   Weights <- W12
   ErrKinds <- ErrApi
   MaxErrors = 1
